@@ -157,8 +157,10 @@ class FitsTiler(object):
 
                 if os.path.exists(os.path.join(self.out_dir, "properties")):
                     self._copy_hips_properties_to_builder()
+                else:
+                    self._load_index_wtml_into_builder()
 
-                return
+                return self
 
         if self.tiling_method == TilingMethod.HIPS:
             self._tile_hips(cli_progress, parallel)
@@ -396,6 +398,35 @@ class FitsTiler(object):
             os.symlink(src=absolute_path, dst=link_path)
 
         return dir
+
+    def _load_index_wtml_into_builder(self):
+        """
+        Restore the builder's description of the dataset from the
+        ``index_rel.wtml`` file left in the output directory by the run that
+        produced the tiles that we are reusing.
+        """
+        from wwt_data_formats.folder import Folder
+        from wwt_data_formats.imageset import ImageSet
+        from wwt_data_formats.place import Place
+
+        wtml_path = os.path.join(self.out_dir, "index_rel.wtml")
+
+        if not os.path.exists(wtml_path):
+            return
+
+        for child in Folder.from_file(wtml_path).children:
+            if isinstance(child, Place):
+                imgset = child.as_imageset()
+
+                if imgset is not None:
+                    self.builder.place = child
+                    self.builder.imgset = imgset
+                    break
+            elif isinstance(child, ImageSet):
+                self.builder.imgset = child
+                self.builder.place.foreground_image_set = child
+                self.builder.place.name = child.name
+                break
 
     def _copy_hips_properties_to_builder(self):
         hips_properties = dict()
